@@ -2,7 +2,7 @@
 // verifies model == SUT after every op and runs the batteries of the property under check.
 #pragma once
 #include "hist.hh"
-#include "batteries3.hh"
+#include "batteries_kernels.hh"
 
 namespace sim {
 
@@ -388,6 +388,35 @@ template <class Mesh> struct HistRun {
         // glue: map template face 0 onto a free halfface (used as is), the rest fresh or existing vertices
         std::vector<int> fr = free_halffaces(r, T.faces[0].size());
         bool glue = !fr.empty() && (q.a[1] % 4) != 0;
+        // hexes on an integer lattice: blocks of arbitrary shape with shared faces, interior edges and sheets
+        bool lattice = t == 1 && (KID == 2 || (q.a[1] % 3) == 0);
+        std::array<int, 3> lc = {0, 0, 0};
+        if (lattice) {
+            glue = false;
+            std::vector<std::array<int, 3>> occ;
+            for (auto &kv : r.lat_c) if (r.m.is_live(BC, kv.second)) occ.push_back(kv.first);
+            if (!occ.empty()) {
+                static const int D[6][3] = {{1, 0, 0}, {-1, 0, 0}, {0, 1, 0}, {0, -1, 0}, {0, 0, 1}, {0, 0, -1}};
+                bool found = false;
+                for (int tries = 0; tries < 12 && !found; ++tries) {
+                    auto base = occ[(size_t)((unsigned)(q.a[0] + tries) % occ.size())];
+                    const int *d = D[(unsigned)(q.a[1] / 3 + tries) % 6];
+                    lc = {base[0] + d[0], base[1] + d[1], base[2] + d[2]};
+                    bool inside = true; for (int x : lc) if (x < 0 || x > 2) inside = false;
+                    auto it = r.lat_c.find(lc);
+                    if (inside && (it == r.lat_c.end() || !r.m.is_live(BC, it->second))) found = true;
+                }
+                if (!found) return;
+            } else lc = {1, 1, 1};
+            static const int C8[8][3] = {{0, 0, 0}, {1, 0, 0}, {1, 1, 0}, {0, 1, 0}, {0, 0, 1}, {1, 0, 1}, {1, 1, 1}, {0, 1, 1}};
+            for (int i = 0; i < 8; ++i) {
+                std::array<int, 3> vc = {lc[0] + C8[i][0], lc[1] + C8[i][1], lc[2] + C8[i][2]};
+                auto it = r.lat_v.find(vc);
+                if (it != r.lat_v.end() && r.m.is_live(BV, it->second)) vs[i] = it->second;
+                else { vs[i] = w_add_vertex(r, true); r.lat_v[vc] = vs[i]; }
+            }
+            st.add("probe_lattice_hex");
+        }
         if (glue) {
             int hf = pick(fr, q.a[1] / 4);
             std::vector<int> cyc = r.m.hf_vertices(hf);
@@ -421,6 +450,8 @@ template <class Mesh> struct HistRun {
         }
         if (fresh) for (int &v : vs) if (v < 0) v = w_add_vertex(r, true);
         bool check = q.a[3] & 1;
+        int cells_before = r.m.n_uids(BC);
+        struct LatNote { HistRun *self; R &r; bool lattice; std::array<int, 3> lc; int before; ~LatNote() { if (lattice && r.m.n_uids(BC) == before + 1) r.lat_c[lc] = before; } } note{this, r, lattice, lc, cells_before};
         if (via_vertices) { op_add_cell_vertices(r, vs, check); return; }
         std::vector<int> hfs;
         for (auto &fc : T.faces) {
@@ -580,6 +611,8 @@ template <class Mesh> struct HistRun {
     void op_prop(R &r, const Op &q);
     void op_fork(const Op &q);
     void op_collapse(R &r, const Op &q);
+    void resync(R &r, int ri);
+    bool resynced = false;
     void op_restart(R &r, const Op &q);
     void op_bad(R &r, const Op &q);
 
@@ -643,6 +676,7 @@ template <class Mesh> struct HistRun {
     void post_op(const Op &q, int idx);   // verify + batteries
     void verify_registry(R &r, int ri, bool deep);
     void run_batteries(R &r, const Snap &s, uint64_t d, int idx);
+    void note_nontrivial(R &r, uint64_t d);
     RunResult run();
 };
 
